@@ -245,7 +245,7 @@ def run(run, replay=None):
                     # a temporary file left by the killed save must not leak into the next save: let one periodic save happen
                     # with nothing changed, kill right after it, restart — the state must be the one restored from the crash directory
                     first = S.wait_until(lambda: os.path.exists(udic) and os.stat(udic).st_mtime_ns != mtime0 and
-                                         not os.path.exists(udic + ".tmp"), 6.0, step=0.01)
+                                         not os.path.exists(udic + ".tmp"), 15.0, step=0.01)
                     s2.stop()
                     if first is None:
                         fails.append(("saving-disabled", {"kind": "crash-loses-data", "effect": "saving-disabled"}, w))
@@ -263,7 +263,7 @@ def run(run, replay=None):
                 # saving keeps working: learn something and see it on disk
                 learn(s2, 9)
                 saved = S.wait_until(lambda: "試験9" in (open(os.path.join(d, "user.dic"), encoding="utf-8", errors="replace").read()
-                                                         if os.path.exists(os.path.join(d, "user.dic")) else ""), 4.0)
+                                                         if os.path.exists(os.path.join(d, "user.dic")) else ""), 12.0)
                 if not saved:
                     fails.append(("saving-disabled", {"kind": "crash-loses-data", "effect": "saving-disabled"}, w))
             finally:
